@@ -8,3 +8,4 @@ open Bec2Verif.Props.C08
 #print axioms bad_crc_rejected
 #print axioms csc_key
 #print axioms consts_pinned
+#print axioms unwrap_wrap_aes
